@@ -14,6 +14,7 @@ import (
 	"net"
 	"os"
 	"runtime"
+	"sort"
 	"strings"
 	"sync"
 	"testing"
@@ -212,7 +213,10 @@ func (s *Sim) alias(p string) string {
 			return "C15"
 		}
 	case "C17":
-		if p == "C10" || p == "C09" {
+		// exactly-once of reports / timeouts; with injected data-plane latency a report
+		// may be produced in one step and served in another, which the per-step report
+		// oracle does not follow
+		if p == "C09" || (p == "C10" && s.cfg.KernLatency == 0) {
 			return "C17"
 		}
 	case "C05":
@@ -375,7 +379,12 @@ func (s *Sim) settle() {
 			// after different data-plane calls never share an instant
 			s.bump()
 			synctest.Wait()
-			if s.cfg.KernLatency > 0 && !s.tearing && (r.Op == "add-create" || r.Op == "add-update" || r.Op == "del" || r.Op == "multi" || r.Op == "report" || r.Op == "get") {
+			// a data plane slower than the tick rate never lets the system go quiet: after
+			// a few hundred answers in one settle the injected latency is suspended
+			if guard > 120 && s.cfg.KernLatency > 0 {
+				s.probe("latency.suspended", 1)
+			}
+			if s.cfg.KernLatency > 0 && !s.tearing && guard <= 120 && (r.Op == "add-create" || r.Op == "add-update" || r.Op == "del" || r.Op == "multi" || r.Op == "report" || r.Op == "get") {
 				s.fired("dp.latency", 1)
 				time.Sleep(time.Duration(s.cfg.KernLatency)*time.Millisecond + time.Nanosecond)
 				synctest.Wait()
@@ -631,7 +640,30 @@ func bubbleDump() string {
 	return strings.Join(keep, "\n\n")
 }
 
+// classifyStuck recognises a known shape of mutual blocking in a goroutine dump.
+func classifyStuck(dump string) string {
+	serveInStop := false
+	tickerSending := false
+	for _, g := range strings.Split(dump, "\n\n") {
+		if strings.Contains(g, "perio.(*PERIOGroup).stopTicker") && strings.Contains(g, "perio.(*Server).Serve") {
+			serveInStop = true
+		}
+		if strings.Contains(g, "perio.(*PERIOGroup).newTicker.func1") && strings.Contains(g, "[chan send") {
+			tickerSending = true
+		}
+	}
+	if serveInStop && tickerSending {
+		// the periodic server waits for a ticker goroutine to take its stop request while
+		// that goroutine waits to put a tick into the full event queue only the server drains
+		return "perio>ticker-stop-handshake|ticker>perio-event-queue"
+	}
+	return ""
+}
+
 func stuckSignature(dump string) string {
+	if c := classifyStuck(dump); c != "" {
+		return c
+	}
 	var fns []string
 	for _, g := range strings.Split(dump, "\n\n") {
 		lines := strings.Split(g, "\n")
@@ -648,7 +680,15 @@ func stuckSignature(dump string) string {
 			}
 		}
 	}
-	return strings.Join(fns, "|")
+	// the set of places, not how many goroutines wait in each
+	sort.Strings(fns)
+	var uniq []string
+	for i, f := range fns {
+		if i == 0 || f != fns[i-1] {
+			uniq = append(uniq, f)
+		}
+	}
+	return strings.Join(uniq, "|")
 }
 
 // ---- the run ---------------------------------------------------------------------------
